@@ -40,6 +40,16 @@ def apply_patch(d, text, reverse=False):
     return p.returncode == 0, p.stdout + p.stderr
 
 
+def save(results, mode, key, only):
+    """last_<mode>.json: a full run replaces it, a run restricted with --only updates the entries it re-ran."""
+    path = os.path.join(V, "selftest", f"last_{mode}.json")
+    if only and os.path.exists(path):
+        redone = {(r.get(key), r.get("check")) for r in results}
+        old = [r for r in json.load(open(path)) if (r.get(key), r.get("check")) not in redone]
+        results = sorted(old + results, key=lambda r: (str(r.get(key)), str(r.get("check"))))
+    json.dump(results, open(path, "w"), indent=1)
+
+
 def opt(name, default=None):
     return sys.argv[sys.argv.index(name) + 1] if name in sys.argv else default
 
@@ -87,7 +97,7 @@ def main():
                 results.append({"seeded": sid, "property": meta["property"], "caught_by": caught,
                                 "seeds": seeds, "caught_on_seeds": caught_seeds,
                                 "results": {c: rc for c, (rc, _, _) in per_seed[seeds[0]].items()}})
-        json.dump(results, open(os.path.join(V, "selftest", "last_seeded.json"), "w"), indent=1)
+        save(results, "seeded", "seeded", only)
         print(f"{len(results)} changes x {len(seeds)} seeds, {bad} not caught on every seed")
         return 1 if bad else 0
     if mode == "reversions":
@@ -168,7 +178,7 @@ def main():
         finally:
             shutil.rmtree(d, ignore_errors=True)
         return 0
-    json.dump(results, open(os.path.join(V, "selftest", f"last_{mode}.json"), "w"), indent=1)
+    save(results, mode, {"reversions": "commit", "mutants": "mutant"}.get(mode, "id"), only)
     print(f"{len(results)} runs, {bad} not caught")
     return 1 if bad else 0
 
